@@ -21,6 +21,8 @@ func Run(o *drv.Out) {
 	CorpusStaleLock(o)
 	CorpusUnlock(o)
 	CorpusRelock(o)
+	CorpusHighQcOneHash(o, "block")
+	CorpusHighQcOneHash(o, "results")
 	// randomised members of the re-lock family (roles, leaders, gaps); many more when an obligation broke
 	nRelock := 6
 	if o.Tier == "thorough" {
@@ -461,7 +463,13 @@ func byzPhase(r *run, rng *rand.Rand, i int, lvl chaos) {
 					}
 				}
 				if len(cands) > 0 {
-					r.byzPropose(i, cands[rng.Intn(len(cands))], "old-certificate")
+					envs := r.byzPropose(i, cands[rng.Intn(len(cands))], "old-certificate")
+					if rng.Intn(2) == 0 { // ... with a proposal that differs from the certificate in one of (block, results)
+						variant := []string{"block", "results"}[rng.Intn(2)]
+						s.ByzMismatchProposal(i, envs, variant)
+						r.o.Count("byz:propose:certificate-with-different-" + variant)
+						r.flush()
+					}
 					return
 				}
 			case 3: // ignore the locks reported by the replicas: fresh block
